@@ -21,7 +21,7 @@ Each change must
  * need something specific to manifest (a particular ordering of labels, unusual argument combination, particular shape, a multi-step sequence of operations, a particular dtype ...) - ordinary use as in the README/tests must NOT expose it at once;
  * keep every currently passing test passing. Run the suite before and after:
      cd {wt} && PYTHONPATH={wt} /venv/bin/python -m pytest -q -p no:cacheprovider --timeout=900 --continue-on-collection-errors 2>&1 | tail -3
-   (at HEAD this gives 229 passed and 12 failures/errors that are unrelated environment fall-out; the SAME tests must pass with your change);
+   (at HEAD this gives 229 passed and 11-12 failures/errors that are unrelated environment fall-out; the SAME tests must pass with your change);
  * come with a demonstration script demoN.py that (a) prints dimarray.__file__ (it must point into {wt}; run it as `cd {wt} && PYTHONPATH={wt} /venv/bin/python demoN.py`), (b) exits 0 on the unmodified code and (c) fails (non-zero exit, e.g. an AssertionError showing the wrong result) with the change applied. The demo must check the property as stated above (compare against what the statement promises), not an implementation detail.
  * touch only files under {wt}/dimarray/.
 Procedure per change: edit the source; run tests; run the demo (must fail); `git -C {wt} diff -- dimarray > {wt}/patchN.diff`; then `git -C {wt} checkout -- dimarray` and run the demo again (must pass). Verify `git -C {wt} apply --check patchN.diff` works on the clean tree.
